@@ -12,7 +12,12 @@ META = {
             "signing member set-up incl. tss-lib's key-subset construction) and the property is evaluated on values that all come "
             "from real code. TLC-chosen (exclusion set, signer set) pairs of the 3-of-5 fixture group are then signed for real with "
             "signing.Execute over local channels (ecdsa.Verify under the wallet key, low S, equal signatures); the thorough tier also "
-            "runs a real key generation with an excluded member and signs with its shares. The quantifier (all exclusion sets x all "
+            "runs a real key generation with an excluded member and signs with its shares. A second model (specs/SigningMachine) "
+            "describes signing as one message-driven machine per signer under per-receiver delivery orders with once-only delivery: "
+            "every state but the last keeps an admitted message of any type in the shared history (EarlyRetained), every quorum "
+            "completes under fairness; the variant whose silent symmetric-key state ignores messages is refuted; the retention "
+            "table and simulated behaviours are replayed on the real state chain and a TLC-steered skewed schedule (round-one "
+            "messages arriving while the receiver is in the silent state) is signed for real. The quantifier (all exclusion sets x all "
             "quorums) is an enumeration, hence model checking.",
     "note": "Trusted: tss-lib's cryptography (keygen saves Ks = sorted party keys and ShareID = own key -- checked on the fixtures "
             "and on the real key generation of the thorough tier); in the quick tier key shares of a group with excluded members are "
